@@ -32,7 +32,8 @@ BodyFns(E, k) ==
   IF E = {} THEN {[i \in 1..4 |-> "plain"]}
   ELSE LET f1 == MinOf(E) IN
        {[i \in 1..4 |-> IF i = f1 THEN b ELSE "plain"] : b \in BodiesAllowed(k[f1])}
-CfgB(E, k, b, e, l, d) == [n |-> 4, exist |-> E, key |-> k, body |-> b, env |-> e, loc |-> l, defx |-> d]
+CfgV(E, k, b, e, l, d, v) == [n |-> 4, exist |-> E, key |-> k, body |-> b, env |-> e, loc |-> l, defx |-> d, val |-> v]
+CfgB(E, k, b, e, l, d) == CfgV(E, k, b, e, l, d, "plain")
 \* (the product is enumerated by TLC through the quantifiers of Init; building it as one set value first
 \*  made TLC spend minutes normalising a set of 7*10^4 large records)
 InitDiagonal == \E E \in Patterns : \E k \in KeyFns(E) : \E b \in BodyFns(E, k) : \E e \in [Settings -> BOOLEAN] :
@@ -42,13 +43,23 @@ InitCross == \E E \in {{}, {2}} : \E ks \in KeyStates : \E b \in BOOLEAN :
                \E l \in [Stores -> LocClasses] : \E d \in [Stores -> DefLists] :
                  x = CfgB(E, [i \in 1..4 |-> IF i \in E THEN All(ks) ELSE All("absent")], [i \in 1..4 |-> "plain"], All(b), l, d)
 
-Schemes == {"unix", "tcp", "tcp4", "tcp6", "udp", "udp4", "udp6", "ws", "foo", "http", "file", ""}
+\* value alphabets other than plain, on a reduced product of sources
+InitVal == \E E \in {{1}, {2, 3}} : \E k \in {q \in KeyFns(E) : q[MinOf(E)] \in {All("present"), All("absent")}} :
+             \E e \in {All(TRUE), All(FALSE), [s \in Settings |-> s = "pib"]} :
+               \E lc \in {"none", "absE", "relE", "absM"} : \E dx \in DefLists : \E v \in ValClasses \ {"plain"} :
+                 x = CfgV(E, k, [i \in 1..4 |-> "plain"], e, [s \in Stores |-> lc], [s \in Stores |-> dx], v)
+Plats == [new : BOOLEAN, old : BOOLEAN, sys : {"linux", "freebsd"}]
+
+\* supported, unsupported, and near misses of the supported ones
+Schemes == {"unix", "tcp", "tcp4", "tcp6", "udp", "udp4", "udp6", "ws", "foo", "http", "file", "",
+            "tcp46", "tcp64", "tcp44", "udp46", "udp66", "tcp5", "udpx", "tcps", "xtcp", "unixx"}
 Uris == {Uri(sc, a, p, "") : sc \in Schemes \ {"unix", ""}, a \in {"h", "127.0.0.1", "::1", "example.org"}, p \in {0, 1, 6363, 65535}}
         \cup {Uri("unix", "", 0, p) : p \in {"/p", "/run/nfd/nfd.sock"}}
         \cup {Uri("", "", 0, "")}
 
 \* Mode = "conf" | "face" | "both" (one TLC run for the two domains)
-Init == \/ Mode \in {"conf", "both"} /\ kind = "conf" /\ (InitDiagonal \/ InitCross) /\ out = Resolve(x)
+Init == \/ Mode \in {"conf", "both"} /\ kind = "conf" /\ (InitDiagonal \/ InitCross \/ InitVal) /\ out = Resolve(x)
+        \/ Mode \in {"conf", "both"} /\ kind = "plat" /\ x \in Plats /\ out = PlatOf(x)
         \/ Mode \in {"face", "both"} /\ kind = "face" /\ x \in Uris /\ out = FaceOf(x)
 Next == UNCHANGED <<kind, x, out>>
 Spec == Init /\ [][Next]_<<kind, x, out>>
@@ -60,6 +71,11 @@ I_NextToFile  == kind = "conf" => P_RelativeNextToFile(x, out)
 I_FallBack    == kind = "conf" => P_MissingFallsBackToDefault(x, out)
 I_Determined  == kind = "conf" => \A s \in Stores : out[s].where # {}
 I_Content     == kind = "conf" => P_ContentClassIrrelevant(x, out)
+I_Values      == kind = "conf" => (P_ValueAlphabetIrrelevant(x, out) /\ P_ForeignTpmRefused(x, out))
+I_Plat        == kind = "plat" => /\ (x.sys = "linux" => out.cls = "Linux")
+                                  /\ (x.sys = "freebsd" => out.cls = "err")
+                                  /\ (out.cls = "Linux" => out.transport = IF x.old /\ ~x.new THEN "unix:///run/nfd.sock"
+                                                                           ELSE "unix:///run/nfd/nfd.sock")
 I_Face        == kind = "face" => P_Face(x, out)
 
 \* vacuity: the situations the clauses talk about are in the product
